@@ -515,6 +515,10 @@ func (p *Pattern) matchIdentical(state *MatcherState, sub *pattern, typ types.Ty
 		if !ok {
 			return false
 		}
+		// A pattern can't spell a ...T parameter.
+		if typ.Variadic() {
+			return false
+		}
 		numParams := sub.value.(int)
 		params := sub.subs[:numParams]
 		results := sub.subs[numParams:]
@@ -531,6 +535,10 @@ func (p *Pattern) matchIdentical(state *MatcherState, sub *pattern, typ types.Ty
 	case opFunc:
 		typ, ok := typ.(*types.Signature)
 		if !ok {
+			return false
+		}
+		// A pattern can't spell a ...T parameter.
+		if typ.Variadic() {
 			return false
 		}
 		numParams := sub.value.(int)
